@@ -342,7 +342,8 @@ def run_c14(pid, tier, seed, ctx, P):
     nops = 60 if tier == "quick" else 600
     for i in range(nops):
         lines = gen.gen_term_case(r, i + 1, kinds=[0, 1, 2, 3, 9, 10, 15, 16, 23, 26, 27, 31])
-        lines = [l for l in lines if not re.match(r"T 0 (save|restore|raw|oda|mouse|buf|title)", l)]
+        # only what the child's stdout-ops mode executes (both sides run the same lines)
+        lines = [l for l in lines if re.match(r"(CASE|END)\b", l) or re.match(r"T 0 (new|size|elem|str|move|erase|hide|show) ?", l)]
         lines = [re.sub(r"^T 0 erase \d", "T 0 erase 0", l) for l in lines]
         res = vc.run_script(ctx, "stdout-ops", lines, want_oracle=False, want_model=True)
         cap = b"".join(bytes.fromhex(l[2:]) for l in res["impl_lines"] if l.startswith("W ") and l[2:] != "-")
